@@ -47,7 +47,7 @@ DtypeRoundTrip ==
    /\ \A cplx \in BOOLEAN :
         /\ P!ParseFmt(N!FxpString(t, cplx)) = Want(cplx)
         /\ P!ParseFmt(N!Upper(N!FxpString(t, cplx))) = Want(cplx)
-   /\ (t.w - t.f >= 0) =>                       \* Q notation whenever m = n_word - n_frac >= 0
+   /\ TRUE =>                                   \* Q notation for every format: m = n_word - n_frac may be negative (Q-3.11)
         /\ P!ParseFmt(N!QString(t)) = Want(FALSE)
         /\ P!ParseFmt(N!Lower(N!QString(t))) = Want(FALSE)
         /\ P!ParseFmt(N!SUString(t)) = Want(FALSE)
@@ -59,8 +59,8 @@ I_DtypeRoundTrip == ph = 0 \/ DtypeRoundTrip
 Emit11 == ph = 0 \/ PrintT(ToJson([k |-> "text", s |-> t.s, w |-> t.w, f |-> t.f]))
 Emit12 == ph = 0 \/ PrintT(ToJson([k |-> "dtype", s |-> t.s, w |-> t.w, f |-> t.f,
              fxp |-> N!FxpString(t, FALSE), fxpc |-> N!FxpString(t, TRUE), fxpU |-> N!Upper(N!FxpString(t, TRUE)),
-             q |-> IF t.w - t.f >= 0 THEN N!QString(t) ELSE <<>>,
-             ql |-> IF t.w - t.f >= 0 THEN N!Lower(N!QString(t)) ELSE <<>>,
-             su |-> IF t.w - t.f >= 0 THEN N!SUString(t) ELSE <<>>,
-             sul |-> IF t.w - t.f >= 0 THEN N!Lower(N!SUString(t)) ELSE <<>>]))
+             q |-> N!QString(t),
+             ql |-> N!Lower(N!QString(t)),
+             su |-> N!SUString(t),
+             sul |-> N!Lower(N!SUString(t))]))
 =============================================================================
